@@ -18,6 +18,8 @@ tie to code: a pipeline plugin (harness/c11_plugin.py) translates every explored
                (7) model state after a history = the real object's attributes
                (8) `tu.is_sam` on every class = model's answer (= False, theorem is_sam_never)      [Kotlin]
                (9) model text after [pool0] and an explicit `_reset_state()` = real text        [Scala]
+              (10) random UNTYPED trees over all node kinds (c11_random_ast.py) visited from random hand-set
+                   states: texts and final state, model = real; state restored as Scala.visit_state says [Scala]
              Modelled: Kotlin (Props/C11.lean) and Scala (Props/C11Scala.lean, namespace Heph.Props.C11.Scala,
              audited with C11: Scala.visit_state, Scala.history_independent, Scala.translate_twice,
              Scala.reset_state_forgets, …; model lean/Heph/Model/TransScala.lean, ops trans.scala*).
